@@ -44,6 +44,11 @@ fn teardown_obs() -> Obs {
     Obs { r: vec![R_UNIT], v, ..Default::default() }
 }
 
+/// requested id: the public constructor for the initial id, the raw hook otherwise
+fn sid(i: u64) -> StateId {
+    if i == 0 { StateId::new() } else { StateId::verif_from_raw(i) }
+}
+
 macro_rules! state_exec {
     ($name:ident, $fut:ty, { $($field:ident : $fty:ty),* }, $new:expr,
      send: $send:expr, close: $close:expr, try_recv: $tryr:expr, recv: $recv:expr,
@@ -90,16 +95,16 @@ macro_rules! state_exec {
                         match f(self, val) { Some(r) => o.r = send_res(r), None => return Obs::bad() }
                     }
                     [1] => {
-                        let f: fn(&Self) -> Option<Option<bool>> = $close;
-                        match f(self) { Some(r) => o.r = vec![r.map_or(R_PANIC, rbool)], None => return Obs::bad() }
+                        let f: fn(&Self) -> Option<Option<u64>> = $close;
+                        match f(self) { Some(r) => o.r = vec![r.unwrap_or(R_PANIC)], None => return Obs::bad() }
                     }
                     [2, i] => {
                         let f: fn(&Self, StateId) -> Option<Option<Option<(StateId, Val)>>> = $tryr;
-                        match f(self, StateId::verif_from_raw(*i)) { Some(r) => o.r = recv_res(r), None => return Obs::bad() }
+                        match f(self, sid(*i)) { Some(r) => o.r = recv_res(r), None => return Obs::bad() }
                     }
                     [3, f, i] if (*f as usize) < self.futs.len() && !self.futs.alive(*f as usize) => {
                         let g: fn(&Self, StateId) -> Option<$fut> = $recv;
-                        match g(self, StateId::verif_from_raw(*i)) {
+                        match g(self, sid(*i)) {
                             Some(fut) => { self.futs.put(*f as usize, fut); o.r = vec![R_UNIT]; }
                             None => return Obs::bad(),
                         }
@@ -159,7 +164,7 @@ state_exec!(BorrowedState, futures_intrusive::channel::StateReceiveFuture<'stati
     { ch: Option<&'static GenericStateBroadcastChannel<M, Val>> },
     |k| BorrowedState { ch: Some(Box::leak(Box::new(GenericStateBroadcastChannel::<M, Val>::new()))), futs: Slots::new(k), gone: false, view: false },
     send: |s, v| { let c = s.ch.unwrap(); Some(lib(|| c.send(v))) },
-    close: |s| { let c = s.ch.unwrap(); Some(lib(|| c.close()).map(|x| x.is_newly_closed())) },
+    close: |s| { let c = s.ch.unwrap(); Some(lib(|| c.close()).map(close_code)) },
     try_recv: |s, i| { let c = s.ch.unwrap(); Some(lib(|| c.try_receive(i))) },
     recv: |s, i| { let c = s.ch.unwrap(); lib(|| c.receive(i)) },
     snap: |s, out| s.ch.unwrap().verif_snapshot(out),
